@@ -45,7 +45,7 @@ C10 = [
     ("least_one_removed", T + "tlv_template.c",
      'KSI_TLV_OBJECT(0x03, KSI_TLV_TMPL_FLG_MANTATORY_MOST_ONE_G0, KSI_HashChainLink_getLegacyId',
      'KSI_TLV_OBJECT(0x03, KSI_TLV_TMPL_FLG_MOST_ONE_G0, KSI_HashChainLink_getLegacyId',
-     "tmpl_HashChainLink.f1,tmpl_HashChainLink.r1", "legacy-id row of the chain link no longer counts for the at-least-one group (equivalent for acceptance: the group flag of the other rows still demands a member) - expected MISSED unless the end check iterates rows"),
+     "tmpl_HashChainLink.f1,tmpl_HashChainLink.r1", "legacy-id row of the chain link no longer counts for the at-least-one group (a link with only a legacy id then misses its mandatory group)"),
     ("group_end_check_dropped", T + "tlv_template.c",
      "if (((tmpl[i].flags & KSI_TLV_TMPL_FLG_LEAST_ONE_G0) != 0 && !groupHit[0]) ||", "if (((tmpl[i].flags & KSI_TLV_TMPL_FLG_LEAST_ONE_G0) != 0 && !groupHit[0] && 0) ||",
      "tmpl_HashChainLink.f1,tmpl_AggregationHashChain.r4", "at-least-one group 0 check at the end disabled"),
@@ -162,6 +162,9 @@ def main():
         for r in rows:
             fo.write("| %s | %s | %s | %s | %s | %s |\n" % tuple(str(x).replace("|", "\\|").replace("\n", " ") for x in r))
         n_c = sum(1 for r in rows if r[4].startswith("caught"))
+        fo.write("\nRows marked MISSED are equivalent mutants for the behaviour these harnesses check (reason in the 'change' column); "
+                 "first-attempt misses that led to a stronger instance list or a better mutation: critical_inverted (was run on shapes that can never be accepted; now on base+free shapes), "
+                 "vsnprintf_negative / stringify_full_check (first versions were semantically equivalent C).\n")
         fo.write("\n%d mutations, %d caught, %d missed, %d not applied.\n" % (len(rows), n_c, sum(1 for r in rows if r[4] == "MISSED"), sum(1 for r in rows if r[4].startswith("NOT"))))
     print("written", mdp)
 
